@@ -16,28 +16,35 @@ import json
 from harness.translate import c16_shape
 
 ID = "C16"
-LEVEL_TEXT = ("19 theorems over ALL operation histories (induction over the op list, no length bound), closed under the global context. "
-              "For every history that inserts objects fresh and under their own name and applies operations to objects that are in the "
-              "tree (all_top_down), the invariant Inv holds in every reachable state (C16_inv_init/_step/_reachable): member.parent is the "
-              "container and member.name its key, parents precede children (so obj.path terminates: the fuel the model passes is proved "
-              "sufficient), keys of every aliases dictionary are the current paths of their values and are distinct, every resolved alias "
-              "reachable from the collection is listed in its target's aliases under its path. Consequences proved from Inv: retrievable by "
-              "own path, parent-is-container, top-level members reach the collection; for every state: dotted lookup = chained lookup, "
-              "dotted string = tuple of names, deleted members are gone / a rejected deletion changes nothing; refinement to the reference "
-              "dictionary path->object for set, del, rejected insertions and alias operations; aliases follow a set_member replacement. "
-              "No alias ever targets itself after ANY history (no discipline at all). The back-reference clause is REFUTED for bottom-up "
-              "histories by a vm_compute witness (finding C16-F1) and proved modulo that decidable gap predicate. The model is tied to the "
-              "code by exhaustive-small and state-guided random differential histories comparing the full abstract state of every object "
-              "ever constructed after every step, plus direct evaluation of every clause and of a reference dictionary on the live objects.")
-LEVEL_NOTE = ("Trusted: Coq kernel, extraction, the object->state abstraction World.dump in this module. Modelled, not verified: navigation "
-              "THROUGH an alias (Alias.members builds transient aliases) and alias->alias chains (Alias.aliases forwards to final_target) "
-              "are outside the model: the model answers `scope`, such operations are skipped in the differential run (about 1-2% of the "
-              "generated operations) and are exercised only by the implementation-only stream, where the clauses parent/retrievable/"
-              "dotted=chained/deleted-gone/no-self-target/direct back-reference are evaluated without a model. Modules in the model carry "
-              "no filepath, so the stub-merge branch of set_member is exercised only by the implementation-only stream. Classes have no "
-              "bases (all_members = members). Which exception reports a rejection (KeyError vs AttributeError; AliasResolutionError vs "
-              "ValueError raised while building its message) is canonicalised away. target_path after a set_member replacement is the "
-              "detached name of the new object ('f', not 'm.f'): modelled as is, not part of the property.")
+LEVEL_TEXT = ("26 theorems over ALL operation histories (induction over the op list, no length bound), closed under the global context, each proved "
+              "for BOTH statement orders of set_member (store+attach the new member before / after re-targeting the aliases of the replaced one); "
+              "which order the code has is read from the source by a translator on every run (Gen/C16_shape.v) and selects the instance the extracted "
+              "model runs. For every history that inserts objects fresh and under their own name, OR inserts again an alias that was deleted or "
+              "replaced and of which nothing is left behind, and applies operations to objects that are in the tree (all_top_down), the invariant Inv "
+              "holds in every reachable state (C16_inv_init/_step/_reachable): member.parent is the container and member.name its key, parents are "
+              "well founded (so obj.path terminates: the fuel the model passes is proved sufficient), keys of every aliases dictionary are the current "
+              "paths of their values and are distinct, every resolved alias reachable from the collection is listed in its target's aliases under its "
+              "path. Consequences proved from Inv: retrievable by own path, parent-is-container, top-level members reach the collection; for every "
+              "state: dotted lookup = chained lookup, dotted string = tuple of names, deleted members are gone / a rejected deletion changes nothing; "
+              "refinement to the reference dictionary path->object for set and del through the collection AND through any object of the tree (an "
+              "operation on the object at pj with relative path p is the operation on the collection with pj++p), and for alias operations; aliases "
+              "follow a set_member replacement and record as target_path the path the new member had when the loop ran - equal to its real path in "
+              "the order 'attach first' (C16_target_path_follows), refuted by witness in the other order (finding C16-F2, repaired by 2e2fded). "
+              "No alias ever targets itself after ANY history (no discipline at all). The back-reference clause is REFUTED by vm_compute witnesses for "
+              "bottom-up histories (C16-F1) and for an alias re-inserted while its old back-reference is still around (C16-F3), and proved modulo the "
+              "decidable gap predicate known_gap. The model is tied to the code by the translator, by exhaustive-small and state-guided random "
+              "differential histories (streams top-down, re-attachment of deleted/replaced objects, bottom-up, malformed) comparing the full abstract "
+              "state of every object ever constructed after every step, plus direct evaluation of every clause and of a reference dictionary on the "
+              "live objects; known findings are recognised by exact predicates over observed registrations, never by the shape of the history.")
+LEVEL_NOTE = ("Trusted: Coq kernel, extraction, the object->state abstraction World.dump in this module, the translator's reading of the statement "
+              "order. Modelled, not verified: navigation THROUGH an alias (Alias.members builds transient aliases; set/del through an alias is finding "
+              "C16-F4) and alias->alias chains are outside the model: the model answers `scope`, such operations are skipped in the differential run "
+              "and exercised only by the implementation-only stream. Re-assigning the object that already is the member, and (order 'attach first') "
+              "replacing an aliased member by an alias, are cut the same way. Modules in the model carry no filepath (stub merge: implementation-only "
+              "stream). Classes have no bases. Inside the theorems re-insertion is restricted to aliases of which nothing is left behind; re-inserted "
+              "plain objects and aliases with stale entries are covered by the generator and the exact classifiers of C16-F1/F3 only. Three conjuncts "
+              "of the discipline (an alias has no members, is nobody's parent, nobody's target) are invariants that are checked on every step, not "
+              "proved. Which exception reports a rejection is canonicalised away.")
 MODEL = ("Model.C16_tree", "run_C16")
 COQ_TARGETS = ["Proofs/C16_tree.vo"]
 TRANSLATOR_NAME = "harness/translate/c16_shape.py -> coq/Gen/C16_shape.v"
@@ -51,21 +58,26 @@ def translate(ctx):
 RULE = ("corpus/C16 first; exhaustive: every sequence of <=2 operations over an alphabet of 127 operations {set_member/__setitem__ of a "
         "fresh M/C/F/A/alias(3 string targets) at 7 paths of depth<=3 over 2 names, del_member/__delitem__ at the same paths, "
         "resolve id<3, target:= id id (<3), 3 object-receiver insertions}, key alternately dotted string / tuple; quick: + 12000 seeded "
-        "sequences of length 3-4 and a quarter of all triples over a reduced 19-operation alphabet; thorough: all triples and quadruples "
-        "over the reduced alphabet + 80000 seeded sequences of length 3-5; random: state-guided histories of length 5..40 over 3 names x 5 "
-        "kinds, receivers collection/object (absolute and relative), string or object alias targets, streams top-down / bottom-up "
-        "(detached construction with alloc+set, dead references) / malformed (empty keys, empty components, missing and over-long paths, "
-        "self targets); implementation-only histories with alias chains, .py/.pyi modules (stub merge) and dotted/tuple/item lookups "
-        "ACROSS resolved aliases compared with the chained lookup. "
+        "sequences of length 3-4 and a quarter of all triples over a reduced 22-operation alphabet (which re-inserts object ids); thorough: all "
+        "triples and quadruples over the reduced alphabet + 80000 seeded sequences of length 3-5; random: state-guided histories of length 5..40 "
+        "over 3 names x 5 kinds, receivers collection/object (absolute and relative), string or object alias targets, streams top-down / reattach "
+        "(deleted or replaced objects - aliases and plain objects with what they still contain - inserted again under their own name anywhere in "
+        "the tree; live aliases replaced by a new alias with the same name and target) / bottom-up (detached construction with alloc+set, dead "
+        "references) / malformed (empty keys, empty components, missing and over-long paths, self targets); implementation-only histories with "
+        "alias chains, .py/.pyi modules (stub merge), set/del THROUGH resolved aliases and dotted/tuple/item lookups ACROSS resolved aliases "
+        "compared with the chained lookup. "
         "non-trivial = at least one operation succeeded and the final tree has depth >= 2 or an alias; distinct by canonical operation list")
 TRUSTED = ["abstraction: harness/props/c16.py:World.dump reads name, kind, parent, members (ordered), resolved target, target_path, "
            "aliases (sorted), modules_collection reachability and path of every object ever constructed in the history",
-           "harness-side mirrors is_top_down / alloc_verdict of the model predicates are cross-checked against the model on every step"]
-ASSUMPTIONS = ["hypotheses the proofs forced (predicate top_down, checked against the code by the bottom-up / dead-reference streams which "
-               "reproduce the failures outside it): objects enter the tree fresh (no members, no parent) and under their own name; the "
-               "collection holds no alias directly (its path raises AttributeError); every receiver / alias an operation is applied to is "
-               "in the tree at that moment (assigning the target of an alias that was replaced at the same path overwrites the live "
-               "alias's back-reference)",
+           "harness-side mirrors is_top_down / reattach_ok / is_loose / alloc_verdict of the model predicates are cross-checked against the model on every step",
+           "translator harness/translate/c16_shape.py: whitelist of AST shapes of _get_parts, get/set/del mixin methods, Alias.parent / target setters, "
+           "_update_target_aliases; reads the statement order of set_member (fail closed on any other shape)"]
+ASSUMPTIONS = ["hypotheses the proofs forced (predicate top_down, checked against the code by the reattach / bottom-up / dead-reference streams which "
+               "reproduce the failures outside it): objects enter the tree fresh (no members, no parent) and under their own name, or they are "
+               "aliases inserted again of which no container and no aliases dictionary keeps anything; the collection holds no alias directly (its "
+               "path raises AttributeError); every receiver / alias an operation is applied to is in the tree at that moment",
+               "direct evaluation: an object is not inserted while it still is a member somewhere (sharing), and a former sub-object is not put "
+               "directly into the collection (the collection API cannot clear its parent)",
                "names are identifiers: non-empty and dot-free (else the dotted string cannot address the member)",
                "alias chains and navigation through aliases are C06's subject and outside this model",
                "the exception *type* of a rejected operation is not part of the property"]
@@ -297,7 +309,7 @@ class World:
             par = o.parent
             try:
                 mc = 1 if o.modules_collection is self.col else 0
-            except (ValueError, AttributeError):
+            except (ValueError, AttributeError, RecursionError):
                 mc = 0
             try:
                 p = ["ok", o.path.split(".")]
@@ -691,7 +703,7 @@ def impl_scope_skip(w, op) -> bool:
                 return True
         except Exception:  # noqa: BLE001
             pass
-    return through_alias(w, op) or self_replace(w, op)
+    return through_alias(w, op) or self_replace(w, op) or chain_replace(w, op)
 
 
 def still_fails(hist, clause) -> bool:
@@ -803,7 +815,9 @@ def reduced_alphabet(names):
            ["new", 0, [], [a, a, a], "F", []], ["new", 0, [], [a, b], "L", ["s", [a, a]]], ["new", 0, [], [a, a, b], "L", ["s", [a, b]]],
            ["new", 0, [], [a, a], "L", ["s", [a, a]]], ["new", 0, [], [a, b], "L", ["o", 1]], ["new", 1, [], [a, a], "M", []],
            ["del", 0, [], [a, a]], ["del", 1, [], [a, b]], ["del", 0, [], [a]],
-           ["resolve", 1], ["resolve", 2], ["settarget", 2, 1], ["settarget", 2, 2], ["settarget", 1, 2], ["settarget", 2, 0]]
+           ["resolve", 1], ["resolve", 2], ["settarget", 2, 1], ["settarget", 2, 2], ["settarget", 1, 2], ["settarget", 2, 0],
+           # object identities used again: whatever was constructed second / third is inserted (again) at a.b, resp. below a.a
+           ["set", 0, [], [a, b], 1], ["set", 0, [], [a, b], 2], ["set", 1, [], [a, a, b], 2]]
     return ops
 
 
@@ -1596,6 +1610,26 @@ def self_replace(w: World, op) -> bool:
     except Exception:  # noqa: BLE001
         return False
     return m is not None and m is w.objs[op[4]] and not m.is_alias
+
+
+def chain_replace(w: World, op) -> bool:
+    """set_member(k, alias) over a non-alias member that aliases point at: they would be re-targeted to an alias (a chain; cut in
+    the model before anything is written when set_member attaches first)."""
+    if not ATTACH_FIRST or op[0] not in ("new", "set") or op[1] != 0 or not op[3]:
+        return False
+    if op[0] == "new":
+        if op[4] != "L":
+            return False
+    elif op[4] >= len(w.objs) or not w.objs[op[4]].is_alias:
+        return False
+    try:
+        c = w.recv(op[2])
+        for part in op[3][:-1]:
+            c = c.members[part]
+        m = c.members.get(op[3][-1])
+    except Exception:  # noqa: BLE001
+        return False
+    return m is not None and not m.is_alias and len(m.aliases) > 0
 
 
 def through_alias(w: World, op) -> bool:
